@@ -20,6 +20,7 @@ VARIANTS = {
     'plain':   ('gcc',   ['-O2'], 'idn2', []),
     'asan':    ('clang', ['-O1', '-g', '-fsanitize=address,undefined', '-fno-sanitize-recover=all', '-fno-omit-frame-pointer'], 'idn2', []),
     'cov':     ('clang', ['-O1', '-fsanitize-coverage=trace-pc-guard,trace-loads,trace-stores', '-fno-builtin'], 'idn2', []),
+    'covbb':   ('clang', ['-O1', '-fsanitize-coverage=trace-pc-guard', '-fno-builtin'], 'idn2', []),
     'tsan':    ('clang', ['-O1', '-g', '-fsanitize=thread'], 'idn2', []),
     'extra':   ('gcc',   ['-O2'], 'idn2', ['-DEAV_EXTRA']),
     'idn':     ('gcc',   ['-O2'], 'idn', []),
@@ -83,7 +84,7 @@ def build_driver(bdir, src, variant='plain', defs=(), objs=None, libs=('-lidn2',
     if objs is None:
         objs = build_objects(bdir, variant)
     exe = out or os.path.join(bdir, os.path.basename(src)[:-2] + '-' + variant)
-    cmd = [cc] + cflags + ['-std=gnu99', '-Wall', '-Wextra', '-Wno-unused-function', '-Wno-format-truncation', '-Wno-unused-parameter',
+    cmd = [cc] + cflags + (['-Wno-format-truncation'] if cc == 'gcc' else []) + ['-std=gnu99', '-Wall', '-Wextra', '-Wno-unused-function', '-Wno-unused-parameter',
            '-I' + os.path.join(R, 'include'), '-I' + R, '-I' + V] + BASE_DEFS + bdefs + vdefs + list(defs) + ['-o', exe, os.path.join(V, src)] + [os.path.join(V, s) for s in extra_src] + list(objs) + list(ldflags) + list(libs) + ['-lpthread', '-ldl']
     rc, out_ = sh(cmd)
     if rc != 0:
